@@ -18,6 +18,8 @@ C01_LensExact == sh # <<>> => LensExact(sh, FALSE)
 C01_LensExactRepaired == sh # <<>> => LensExact(sh, TRUE)
 C02_Sound == AllRequests(LAMBDA s, u, l, rq : KnownUnsound(l, rq) \/ DeriveSound(s, u, l, rq, FALSE))
 C02_SoundRepaired == AllRequests(LAMBDA s, u, l, rq : DeriveSound(s, u, l, rq, TRUE))
+\* the dynamic container argument of Putt / Gett (independent of the shape)
+C02_Reflector == ReflectorSound
 C02_UnrepairedPtrEmb == AllRequests(LAMBDA s, u, l, rq : rq.cont # "T" \/ DeriveSound(s, u, l, rq, FALSE))
 C02_UnrepairedAll == AllRequests(LAMBDA s, u, l, rq : DeriveSound(s, u, l, rq, FALSE))
 ====
